@@ -147,7 +147,7 @@ func newCancel(parent Context) *cancelCtx {
 			c.cancel(pc.err, pc.cause)
 		} else {
 			if pc.nch >= maxChildren {
-				panic("vctx: too many child contexts")
+				panic(vrt.CapacityError("vctx: too many child contexts"))
 			}
 			pc.children[pc.nch] = c
 			pc.nch++
@@ -299,7 +299,7 @@ func AfterFunc(ctx Context, f func()) (stop func() bool) {
 	}
 	a := &afterStop{cc: cc, f: f}
 	if cc.nafter >= len(cc.after) {
-		panic("vctx: too many AfterFunc registrations")
+		panic(vrt.CapacityError("vctx: too many AfterFunc registrations"))
 	}
 	cc.after[cc.nafter] = a.run
 	cc.nafter++
